@@ -34,6 +34,12 @@ template <class NodeT> static int tree_cmp(void const *l, void const *r)
 }
 // lookup by "specified content": the left operand is the caller's probe, here a bare key - not a node
 struct KeyProbe { int key; };
+// lookup by a key carried in the pointer value itself ("specified content" is opaque to the library): key 0 is a null ctx
+template <class NodeT> static int value_cmp(void const *value, void const *node)
+{
+    ++g_cmp_calls_tree;
+    return cmp_result((int)(intptr_t)value, ((TEntry<NodeT> const *)node)->key);
+}
 template <class NodeT> static int probe_cmp(void const *probe, void const *node)
 {
     ++g_cmp_calls_tree;
@@ -46,7 +52,11 @@ struct AvlTraits
     static char const *pfx() { return "a_avl_"; }
     static constexpr bool is_avl() { return true; }
     static Node *parent(Node const *n) { return a_avl_parent(n); }
+#if defined(A_SIZE_POINTER) && (A_SIZE_POINTER + 0 > 3)
     static int tag(Node const *n) { return (int)(n->parent_ & 3); } // factor+1
+#else /* fallback node layout: separate parent pointer and balance factor */
+    static int tag(Node const *n) { return n->factor + 1; }
+#endif
     static void root_init(Root *r) { a_avl_root(r); }
     static Node *insert(Root *r, Node *n) { return a_avl_insert(r, n, tree_cmp<Node>); }
     static void remove(Root *r, Node *n) { a_avl_remove(r, n); }
@@ -54,6 +64,7 @@ struct AvlTraits
     static void insert_adjust(Root *r, Node *n) { a_avl_insert_adjust(r, n); }
     static Node *search(Root const *r, void const *k) { return a_avl_search(r, k, tree_cmp<Node>); }
     static Node *search_probe(Root const *r, KeyProbe const *k) { return a_avl_search(r, k, probe_cmp<Node>); }
+    static Node *search_value(Root const *r, int key) { return a_avl_search(r, (void const *)(intptr_t)key, value_cmp<Node>); }
     static Node *head(Root const *r) { return a_avl_head(r); }
     static Node *tail(Root const *r) { return a_avl_tail(r); }
     static Node *next(Node *n) { return a_avl_next(n); }
@@ -72,7 +83,11 @@ struct RbtTraits
     static char const *pfx() { return "a_rbt_"; }
     static constexpr bool is_avl() { return false; }
     static Node *parent(Node const *n) { return a_rbt_parent(n); }
+#if defined(A_SIZE_POINTER) && (A_SIZE_POINTER + 0 > 1)
     static int tag(Node const *n) { return (int)(n->parent_ & 1); } // 0 red, 1 black
+#else /* fallback node layout: separate parent pointer and colour */
+    static int tag(Node const *n) { return (int)(n->color & 1); }
+#endif
     static void root_init(Root *r) { a_rbt_root(r); }
     static Node *insert(Root *r, Node *n) { return a_rbt_insert(r, n, tree_cmp<Node>); }
     static void remove(Root *r, Node *n) { a_rbt_remove(r, n); }
@@ -80,6 +95,7 @@ struct RbtTraits
     static void insert_adjust(Root *r, Node *n) { a_rbt_insert_adjust(r, n); }
     static Node *search(Root const *r, void const *k) { return a_rbt_search(r, k, tree_cmp<Node>); }
     static Node *search_probe(Root const *r, KeyProbe const *k) { return a_rbt_search(r, k, probe_cmp<Node>); }
+    static Node *search_value(Root const *r, int key) { return a_rbt_search(r, (void const *)(intptr_t)key, value_cmp<Node>); }
     static Node *head(Root const *r) { return a_rbt_head(r); }
     static Node *tail(Root const *r) { return a_rbt_tail(r); }
     static Node *next(Node *n) { return a_rbt_next(n); }
@@ -196,7 +212,7 @@ template <class T> struct TreeSim
     { // hash over every resident node's three link fields, for "duplicate insert changes nothing"
         uint64_t h = FNV0;
         if (check_every > 1) return fnv_mix(h, (uint64_t)id_of(root.node) + 2); // big-tree run: the next full walk decides
-        for (size_t i = 0; i < N; ++i) if (resident[i]) { h = fnv_mix(h, (uint64_t)id_of(pool[i].link.left) + 2); h = fnv_mix(h, (uint64_t)id_of(pool[i].link.right) + 2); h = fnv_mix(h, (uint64_t)(pool[i].link.parent_ & 3)); h = fnv_mix(h, (uint64_t)id_of(T::parent(&pool[i].link)) + 2); }
+        for (size_t i = 0; i < N; ++i) if (resident[i]) { h = fnv_mix(h, (uint64_t)id_of(pool[i].link.left) + 2); h = fnv_mix(h, (uint64_t)id_of(pool[i].link.right) + 2); h = fnv_mix(h, (uint64_t)T::tag(&pool[i].link)); h = fnv_mix(h, (uint64_t)id_of(T::parent(&pool[i].link)) + 2); }
         h = fnv_mix(h, (uint64_t)id_of(root.node) + 2);
         return h;
     }
@@ -292,8 +308,9 @@ template <class T> struct TreeSim
         c.obs(2); c.obs((uint64_t)pool[id].key);
         return check_struct(name.c_str());
     }
-    bool do_search(int key, bool bare_key_probe = false)
+    bool do_search(int key, int probe_style = 0)
     {
+        bool const bare_key_probe = probe_style == 1;
         Entry probe; memset(&probe, 0, sizeof probe); probe.key = key; probe.id = -1;
         std::string const name = nm("search");
         c.site(name.c_str());
@@ -305,6 +322,7 @@ template <class T> struct TreeSim
             free(kp);
             c.st.add("probe.search_with_bare_key_probe");
         }
+        else if (probe_style == 2 && key >= 0) { r = T::search_value(&root, key); c.st.add(key == 0 ? "probe.search_with_null_ctx" : "probe.search_with_key_in_pointer"); }
         else r = T::search(&root, &probe);
         auto it = model.find(key);
         c.st.add(it != model.end() ? "probe.search_present" : "probe.search_absent");
@@ -421,6 +439,76 @@ template <class T> struct TreeSim
         std::sort(cuts, cuts + 3);
         int cut_i = 3 - ncuts; if (cut_i < 0) cut_i = 0;
         bool const from_scratch = ((o.a[3] >> 3) & 1) != 0;
+        int const style = (int)(((uint64_t)(o.a[3] < 0 ? -o.a[3] : o.a[3]) >> 6) % 6); // 0-2: function calls, 3: lower-case macro, 4: upper-case macro, 5: cursor aliased to the root pointer
+        if (style >= 3)
+        { // the loop macros of the headers (left early with `break` at each interruption and entered again), or
+          // the cursor-less idiom `while ((cur = tear(&root, &root.node)))` which the shipped code supports
+            c.st.add(style == 3 ? "probe.tear_lower_case_macro" : style == 4 ? "probe.tear_upper_case_macro" : "probe.tear_cursor_aliased_to_root");
+            bool failed = false;
+            auto visit = [&](Node *cur) -> bool { // returns false to stop
+                int const id = id_of(cur);
+                if (iter_prop)
+                {
+                    if (id < 0 || !resident[(size_t)id]) { c.fail("tear-yielded-foreign-node", name.c_str(), "tear-down handed out something that is not an element of the tree"); failed = true; return false; }
+                    if (yielded[(size_t)id]) { c.fail("tear-yielded-twice", name.c_str(), "node %d handed out a second time", id); failed = true; return false; }
+                    if ((lc[(size_t)id] >= 0 && !yielded[(size_t)lc[(size_t)id]]) || (rc[(size_t)id] >= 0 && !yielded[(size_t)rc[(size_t)id]])) { c.fail("tear-parent-before-child", name.c_str(), "node %d handed out before one of its children", id); failed = true; return false; }
+                }
+                else if (id < 0 || yielded[(size_t)id]) { failed = true; return false; }
+                yielded[(size_t)id] = 1; ++done; poison(id);
+                return done <= n + 1;
+            };
+            if (style == 5)
+            {
+                c.site(name.c_str());
+                Node *cur; size_t guard = 0;
+                while ((cur = T::tear(&root, &root.node)) != nullptr) { if (!visit(cur)) break; if (++guard > n + 2) break; }
+            }
+            else
+            {
+                for (int round = 0; round < 5 && !failed; ++round)
+                {
+                    size_t const stop_at = cut_i < 3 ? cuts[cut_i] : n + 1; // leave the loop early when this many have been handed out
+                    if (cut_i < 3) ++cut_i;
+                    bool left_early = false;
+                    c.site(name.c_str());
+                    if constexpr (T::is_avl())
+                    {
+                        a_avl *rt = (a_avl *)&root;
+                        if (style == 3) { a_avl_fortear(cur, nx, rt) { if (!visit(cur)) break; if (done >= stop_at) { left_early = true; break; } } }
+                        else { a_avl_node *cur, *nx; A_AVL_FORTEAR(cur, nx, rt) { if (!visit(cur)) break; if (done >= stop_at) { left_early = true; break; } } }
+                    }
+                    else
+                    {
+                        a_rbt *rt = (a_rbt *)&root;
+                        if (style == 3) { a_rbt_fortear(cur, nx, rt) { if (!visit(cur)) break; if (done >= stop_at) { left_early = true; break; } } }
+                        else { a_rbt_node *cur, *nx; A_RBT_FORTEAR(cur, nx, rt) { if (!visit(cur)) break; if (done >= stop_at) { left_early = true; break; } } }
+                    }
+                    if (!left_early) break;
+                }
+            }
+            if (failed && c.ok() && !iter_prop) {}
+            if (!c.ok()) return false;
+            if (iter_prop && style == 5)
+            {
+                if (done != n) return c.fail("tear-incomplete", name.c_str(), "tear-down with the cursor aliased to the root pointer ended after handing out %zu of %zu elements", done, n);
+                if (root.node != nullptr) return c.fail("tear-left-root", name.c_str(), "the root still references a node after tear-down");
+            }
+            if (iter_prop && style != 5)
+            {
+                // every element that has not reached the body must still be reachable for a later tear-down: finish with the function form
+                Node *nx2 = nullptr, *cur2; size_t guard = 0;
+                c.site(name.c_str());
+                while ((cur2 = T::tear(&root, &nx2)) != nullptr) { if (!visit(cur2)) break; if (++guard > n + 2) break; }
+                if (!c.ok()) return false;
+                if (done != n) return c.fail("tear-incomplete", name.c_str(), "after leaving the tear-down macro loop early and tearing down again, %zu of %zu elements were handed out", done, n);
+                if (root.node != nullptr) return c.fail("tear-left-root", name.c_str(), "the root still references a node after tear-down");
+            }
+            T::root_init(&root);
+            for (size_t i = 0; i < N; ++i) if (resident[i]) { resident[i] = 0; if (!yielded[i]) poison((int)i); }
+            model.clear();
+            list_init();
+            return true;
+        }
         // documented entry point: "next: input starting node; if null, root node" - start (and optionally resume) at a seeded element
         bool const start_at_node = ((o.a[3] >> 4) & 1) != 0, resume_at_node = ((o.a[3] >> 5) & 1) != 0;
         auto pick_remaining = [&](uint64_t sel) -> Node * {
@@ -602,7 +690,7 @@ template <class T> struct TreeSim
                 if (it != model.end() && r == nd(it->second)) do_remove_id(it->second);
                 break;
             }
-            case T_SEARCH: do_search((int)(a0 % (uint64_t)(U + 2)) - 1, (a1 & 1) != 0); break;
+            case T_SEARCH: do_search((int)(a0 % (uint64_t)(U + 2)) - 1, (int)(a1 % 3)); break;
             case T_BURST: do_burst(o); break;
             case T_ITER: do_iterate(); break;
             case T_TEAR: do_tear(o); break;
@@ -616,7 +704,7 @@ template <class T> struct TreeSim
         if (c.ok() && !precond_failed && iter_prop)
         {
             c.opi = (int)p.ops.size();
-            if (do_iterate()) { Op t; t.kind = T_TEAR; t.a[0] = (int64_t)(p.seed % 97); t.a[1] = (int64_t)(p.seed % 89); t.a[2] = (int64_t)(p.seed % 83); t.a[3] = (int64_t)(p.seed % 64); do_tear(t); }
+            if (do_iterate()) { Op t; t.kind = T_TEAR; t.a[0] = (int64_t)(p.seed % 97); t.a[1] = (int64_t)(p.seed % 89); t.a[2] = (int64_t)(p.seed % 83); t.a[3] = (int64_t)(p.seed % 384); do_tear(t); }
         }
     }
 };
@@ -641,6 +729,9 @@ struct TreeEngine : Engine
         p.set("universe", r.pick(UU));
         p.set("clients", (int64_t)r.range(1, 4));
         p.set("cmpstyle", (int64_t)r.below(3));
+#ifdef SIM_ALT_CONFIG
+        p.set("build_alt", 1); // this plan belongs to the build with the fallback node layout (separate parent / factor / colour fields)
+#endif
         bool const big = r.chance(1, 400);
         if (big)
         { // a rare deep-tree configuration: tens of thousands of elements, structural walk on every 4096th operation
